@@ -130,8 +130,8 @@ Definition h_to_implicit_host (g : hostg) : hostg :=
 
 (** ** the default-mode way of writing a reaction, as a boolean of (G, H) and the template (evaluated by [run_c04]):
     no atom changes its implicit hydrogen count and no count is negative; every hydrogen atom is bonded, on both sides,
-    to at least one atom and only to non-hydrogen atoms of the graph; every hydrogen atom is in the template with all
-    its bonds; every hydrogen atom of the template has a non-hydrogen neighbour on both template sides (so that
+    to at least one atom and only to non-hydrogen atoms of the graph; a hydrogen atom that is an atom of the template is there
+    with all its bonds (the others are spectators, folded into the substrate); every hydrogen atom of the template has a non-hydrogen neighbour on both template sides (so that
     _strip_explicit_h removes it) *)
 Definition foldableb (g : hostg) : bool :=
   forallb (fun h => match nbrs g h with
@@ -145,9 +145,10 @@ Definition default_okb (A B : hostg) (t : its) : bool :=
                     | Some y => Z.eqb (a_hc (snd p)) (a_hc y) && (0 <=? a_hc (snd p))
                     | None => false end) (gnodes A)
   && foldableb A && foldableb B
-  && forallb (fun h => mem h (node_ids t)
-                       && forallb (fun e => let '(u, v, _) := e in if N.eqb u h || N.eqb v h then has_adj t u v else true)
-                                  (gedges A ++ gedges B)) (h_nodes_h A)
+  && forallb (fun h => if mem h (node_ids t)
+                       then forallb (fun e => let '(u, v, _) := e in if N.eqb u h || N.eqb v h then has_adj t u v else true)
+                                    (gedges A ++ gedges B)
+                       else true) (h_nodes_h A)
   && forallb (fun p => if N.eqb (a_el (iG (snd p))) EL_H
                        then heavy_nbr_m (side0m iG eG t) (fst p) && heavy_nbr_m (side0m iH eH t) (fst p) else true) (gnodes t).
 
